@@ -13,6 +13,8 @@ from source by constant propagation for every named cell and every entity dimens
   C26-ridge    every ridge lies in exactly two facets: sum over facets of their facet count = 2 * ridges
   C26-order    `<` on cells is a strict total order (irreflexive, asymmetric, transitive, total),
                including TensorProductCell vs Cell
+  C26-key      shared MEMO-KEY rule over ufl/cell.py: memo tables keyed by all inputs; the result of a memoised helper (one
+               object shared by every cell of a name) is never modified in place.
   C26-tp       TensorProductCell: vertex count is the product of the factors' vertex counts
 """
 
@@ -218,4 +220,7 @@ def run(ctx) -> Report:
         "incidence, and the strict total order on cells (all triples)."
     )
     rep.assumptions = ["weakref.proxy and numbers.Integral are modelled as identity / int"]
+    from ..memokey import memo_rule
+
+    memo_rule(ctx, rep, "C26-key", ["ufl.cell"])
     return rep
